@@ -1,6 +1,8 @@
 """C09 -- discrete edge delays shift the source by round(delay/dt) steps (one inductive step of the ring buffers)."""
 from fractions import Fraction as F
 
+import numpy as np
+
 from .. import families, tv, tvspec, decide, runner, findings, tvdelay
 from ..spec import build_python
 from ..report import Report
@@ -23,6 +25,94 @@ def job_fn(job):
                 smap={k: str(v) for k, v in c.smap.items()}, n_buffers=len(plugin.buffers))
 
 
+# ---------------------------------------------------------------------------------------------
+# run level: the real fixed-step kernels driving the emitted (stateful) function
+# ---------------------------------------------------------------------------------------------
+def run_level_job(job):
+    """The ring-buffer invariant assumes ONE evaluation of the vector field per integration step.  Here the real
+    Euler/Heun kernel integrates the emitted text (executed on symbols) for K steps with dts = dt; afterwards every
+    ring buffer must hold its source variable's recorded trajectory shifted by one slot per STEP:
+    buffer[slot j] == row (K-1-j) of the source (zero before the start)."""
+    import pyrates.backend.base.base_backend as bb
+    import z3
+    from .. import symx, libmodels
+    from ..symx import Sym, SArr
+    from .c03 import _kernel
+    spec, heun, K = job['spec'], job['heun'], job['steps']
+    tally = decide.Tally()
+    out = dict(violations=[], inconclusive=[], obligations=0)
+    try:
+        c = tv.compile_template(build_python(spec), vectorize=job['vectorize'], step_size=float(DT), solver='euler')
+    except tv.CompileError as e:
+        return dict(status='compile-raises', error=str(e))
+    bufs = tvdelay.find_state_carrying_args(c)
+    if not bufs:
+        out['inconclusive'].append(dict(what='no ring buffer in the emitted function'))
+        out['tally'] = tally.as_dict()
+        return dict(status='ok', res=dict(violations=[], inconclusive=out['inconclusive'], obligations=[], diagnostics=[]),
+                    tally=tally.as_dict(), src=c.src, keys=list(c.keys), smap={})
+    syms = tvspec.Symbols(spec)
+    symx.Ctx.cur = symx.Ctx()
+    binding = tv.Binding(dict(syms.table))
+    ny = int(np.asarray(c.args[1]).size)
+    y = symx.symarray('y0', ny)
+    sargs = tv.bind_args(c, binding, y, 0)
+    f, _ = tv.load_python(c, binding)
+    kern = _kernel('base', heun)
+    pos, _ = tvspec._positions(c, syms)
+    try:
+        rec = np.asarray(kern(f, tuple(sargs[2:]), float(DT * K), float(DT), float(DT), y, 0), dtype=object)
+    except Exception as e:   # noqa
+        out['inconclusive'].append(dict(what=f"kernel on the emitted text raised {type(e).__name__}: {e}"))
+        return dict(status='ok', res=dict(violations=[], inconclusive=out['inconclusive'], obligations=[], diagnostics=[]),
+                    tally=tally.as_dict(), src=c.src, keys=list(c.keys), smap={})
+    viol = []
+    obligations = []
+
+    def eq(a, b):
+        # cheap refutation first: terms that differ at a random rational point differ (concrete witness); only
+        # candidates that agree numerically go to the solver for the proof
+        if decide.numeric_disagreement(a, b, None, n_extra=3) is not None:
+            tally.obligations += 1
+            tally.sat += 1
+            return 'sat'
+        return decide.prove_equal(a, b, tally=tally)[0]
+    for p in bufs:
+        B = np.asarray(sargs[p], dtype=object)
+        B2 = B.reshape(-1, B.shape[-1]) if B.ndim > 1 else B.reshape(1, -1)
+        for r in range(B2.shape[0]):
+            # which state variable does this row follow?  slot 0 after the last call = the state at the last stored
+            # step (the kernels evaluate the field at the state of step K-1 last)
+            src_pos = None
+            for jpos in range(ny):
+                v = eq(B2[r, 0], rec[K - 1, jpos])
+                if v == 'unsat':
+                    src_pos = jpos
+                    break
+            if src_pos is None:
+                viol.append(dict(kind='ring-buffer-run', solver='heun' if heun else 'euler',
+                                 what=f"after {K} {'Heun' if heun else 'Euler'} steps slot 0 of {c.keys[p]} (row {r}) is "
+                                      f"not the value any state variable had at the last step (it holds "
+                                      f"{str(B2[r, 0])[:80]}): the buffer does not advance exactly once per integration "
+                                      f"step"))
+                continue
+            for j in range(B2.shape[1]):
+                k_src = K - 1 - j
+                want = rec[k_src, src_pos] if k_src >= 0 else symx.val(0)
+                v = eq(B2[r, j], want)
+                obligations.append(dict(var=f"{c.keys[p]}[{r},{j}]", verdict=v))
+                if v == 'sat':
+                    tally.sat_confirmed += 1
+                    viol.append(dict(kind='ring-buffer-run', solver='heun' if heun else 'euler',
+                                     what=f"after {K} {'Heun' if heun else 'Euler'} steps slot {j} of {c.keys[p]} (row {r}) "
+                                          f"is not the source's recorded value {j} steps back: the buffer does not "
+                                          f"advance exactly once per integration step"))
+                    break
+    return dict(status='ok', res=dict(violations=viol, inconclusive=out['inconclusive'], obligations=obligations,
+                                      diagnostics=[]),
+                tally=tally.as_dict(), src=c.src, keys=list(c.keys), smap={k: str(v) for k, v in c.smap.items()})
+
+
 def run(tier='quick', seed=0, only=None, verbose=False):
     rep = Report('C09', tier, seed, 'translation_validation', functions_encoded=FUNCS + [
         'pyrates.ir.circuit.CircuitIR._add_edge_buffer / _collect_delays_from_edges (concrete)',
@@ -40,6 +130,18 @@ def run(tier='quick', seed=0, only=None, verbose=False):
     jobs = [dict(key=f"{k}|vec={v}", spec=s, vectorize=v) for k, s in progs for v in (True, False)]
     from .. import tvjobs
     tvjobs.run_tv_jobs(rep, jobs, verbose=verbose, fn=job_fn)
+    # run level: kernel x emitted function (the buffers must advance once per STEP under every fixed-step kernel)
+    fixed = dict(families.fam_discrete_delays_fixed())
+    rj = []
+    for name in ('F9x:two-delays-one-source', 'F9x:ring') if tier == 'quick' else ('F9x:two-delays-one-source', 'F9x:ring',
+                                                                                    'F9x:self', 'F9x:mixed-fanout'):
+        for heun in (False, True):
+            for v in (True, False):
+                rj.append(dict(key=f"run-level:{name}|{'heun' if heun else 'euler'}|vec={v}", spec=fixed[name], vectorize=v,
+                               heun=heun, steps=4 if tier == 'quick' else 6, solver='heun' if heun else 'euler'))
+    if only:
+        rj = [j for j in rj if only in j['key']]
+    tvjobs.run_tv_jobs(rep, rj, verbose=verbose, fn=run_level_job)
     return rep.finish(rule='program = circuit with a mixture of delayed/undelayed edges x vectorize; the emitted function is '
                            'run once on symbolic state AND symbolic ring-buffer contents; obligations: buffer invariant '
                            're-established (slot 0 = current source value, slot j = old slot j-1), and per state variable '
